@@ -127,6 +127,33 @@ def random_iter_scripts(rng, count, lens, steps_n):
     return out
 
 
+def repo_iter_test_scripts():
+    def it(n, ops, name):
+        steps = [{"op": "mk", "n": n}, {"op": "into_iter", "recv": [1]}]
+        nexth = 3
+        for o in ops:
+            if isinstance(o, tuple):
+                steps.append({"op": o[0], "recv": [o[2] if len(o) > 2 else 2], "arg": o[1]})
+            elif o == "iter_clone":
+                steps.append({"op": o, "recv": [2]})
+                nexth += 1
+            else:
+                steps.append({"op": o, "recv": [2]})
+        return {"case": name, "ety": "tk", "steps": steps, "d": {"kind": "repo-test-replica", "name": name}}
+    return [
+        it(4, ["as_slice", "next", "as_slice", "next_back", "next", "as_slice", "next", "as_slice", "next"], "test_into_iter_as_slice"),
+        it(4, ["iter_clone", "next", "next_back", "iter_clone", "next", "next"], "test_into_iter_clone"),
+        it(5, [("nth", 0), ("nth", 2), ("nth", 0), ("nth", 5)], "test_into_iter_nth"),
+        it(5, [("nth_back", 0), ("nth_back", 2), ("nth_back", 0), ("nth_back", 5)], "test_into_iter_nth_back"),
+        it(5, ["next", "next_back", "count"], "test_into_iter_count"),
+        it(5, ["next", "next_back", "last"], "test_into_iter_last"),
+        it(5, ["next", "iter_fold"], "test_into_iter_fold"),
+        it(5, ["next_back", "iter_rfold"], "test_into_iter_rfold"),
+        it(5, ["next", "next_back", "debug", "len", "size_hint"], "test_into_iter_debug"),
+        it(5, ["next", ("nth", 1), "next_back"], "test_into_iter_drops"),
+    ]
+
+
 @check("C06")
 def c06(tier, seed):
     c = Check("C06", tier, seed)
@@ -147,6 +174,8 @@ def c06(tier, seed):
     rng = random.Random(seed)
     lens = [12, 16, 33, 97] if tier == "quick" else [12, 16, 33, 97, 1024]
     c.conform(binary, random_iter_scripts(rng, 12 if tier == "quick" else 120, lens, 40 if tier == "quick" else 200), "random")
+    # the repository's own iterator tests (tests/iter.rs), replayed as scripts so that every step is validated
+    c.conform(binary, repo_iter_test_scripts(), "repo-test-replicas")
     c.assumptions += ["iterator state is fully observable through as_slice/len, so covering every transition from every reachable (front, back) covers all histories up to the bound",
                       "harness elements (Tk) report clones and destructor runs faithfully"]
     return c.finish()
@@ -367,6 +396,10 @@ def c04(tier, seed):
     c.cov["exhaustive"] = True
     c.cov["bounds"] = {"model N": "0..%d" % (4 if tier == "quick" else 6), "crash points": "every callback index of every closure / Clone::clone / Iterator::next call"}
     c.conform(binary, with_etys(scns, ["tk", "zst", "plain"]), "panics", nontrivial=lambda s: True)
+    # the mechanism model's own behaviours are accepted by the contract; those of its mutated variants are not
+    mech_conformance(c, "MC_Build", "TR_Build", False)
+    mech_conformance(c, "MC_Build", "TR_Build_consumer", True)
+    mech_conformance(c, "MC_Build", "TR_Build_builder", True)
     if tier != "quick":
         c.neg("MC_Build", "NEG_Build_consumer")
         c.neg("MC_Build", "NEG_Build_builder")
@@ -718,7 +751,9 @@ def c02(tier, seed):
         steps.append([_mk("native", n), {"op": "from_native", "recv": [1]}, {"op": "into_array", "recv": [2]}])
         for st in steps:
             conv.append({"case": "conv", "prop": "C02", "ety": "tk", "steps": st, "d": {"op": "byvalue-conversions", "n": n, "steps": [s["op"] for s in st]}})
-    conv.append({"case": "conv", "prop": "C02", "ety": "tk", "steps": [_mk("arr", 16), {"op": "into_array", "recv": [1]}, {"op": "from_native", "recv": [2]}], "d": {"op": "byvalue-conversions", "n": 16}})
+    for n in (14, 15, 16, 33, 97) + ((1024,) if tier != "quick" else ()):
+        conv.append({"case": "conv", "prop": "C02", "ety": "tk", "steps": [_mk("arr", n), {"op": "into_array", "recv": [1]}, {"op": "from_native", "recv": [2]}, {"op": "into_native", "recv": [3]}, {"op": "from_array", "recv": [4]}],
+                     "d": {"op": "byvalue-conversions", "n": n}})
     c.conform(binary, with_etys(conv, ["tk", "zst", "plain"]), "conversions")
     return c.finish()
 
@@ -1075,3 +1110,27 @@ def selftest():
             ok = False
     print("SELFTEST " + ("OK" if ok else "FAILED"))
     return 0 if ok else 2
+
+
+# ---------------------------------------------------------------------------------------------
+# model-to-model conformance: behaviours of a mechanism model, written in the trace vocabulary, are
+# validated against the contract specification (no real code involved)
+# ---------------------------------------------------------------------------------------------
+def mech_conformance(c, module, cfg, expect_reject):
+    r = vlib.run_mc(module, cfg, scn_tag="MTR")
+    traces = r["scenarios"]
+    cases = []
+    for i, evs in enumerate(traces):
+        lines = [json.dumps(e, separators=(",", ":")) + "\n" for e in evs]
+        lines[0] = json.dumps(dict(evs[0], case="mech#%d" % i), separators=(",", ":")) + "\n"
+        cases.append(("mech#%d" % i, lines))
+    acc, rej, st = vlib.validate_cases(cases, "%s-%s" % (c.prop, cfg))
+    log("[model-conformance] %s/%s: %d model behaviours, %d accepted by the contract, %d rejected" % (module, cfg, len(cases), len(acc), len(rej)))
+    c.cov["mc_runs"].append({"module": module, "cfg": cfg, "model_behaviours": len(cases), "accepted_by_contract": len(acc), "rejected_by_contract": len(rej), "expected": "some rejected" if expect_reject else "all accepted"})
+    c.cov["states"] += r["distinct"]
+    c.cov["transitions"] += r["states"]
+    if expect_reject and not rej:
+        raise ToolError("the contract specification accepted every behaviour of the mutated mechanism model %s/%s" % (module, cfg))
+    if not expect_reject and rej:
+        raise ToolError("the contract specification rejects a behaviour of the faithful mechanism model %s/%s: %s" % (module, cfg, rej[0]["event"]))
+    return len(cases), len(rej)
